@@ -65,7 +65,12 @@ func VerifC09_PacketConn() {
 	cr := newEncapsulationPacketConn(nil, nil, r)
 	var buf [16]byte
 	for i := range pk {
-		k, _, err := cr.ReadFrom(buf[:])
+		// the caller's buffer is roomy, or exactly as long as the packet (an exact fit is whole)
+		rb := buf[:]
+		if len(pk[i]) > 0 && verifapi.Bool("exact-fit buffer") {
+			rb = buf[:len(pk[i])]
+		}
+		k, _, err := cr.ReadFrom(rb)
 		verifapi.Assert(err == nil && k == len(pk[i]), "every packet is read back whole and in order, whatever the carrier's read boundaries: bytes delivered together with an earlier packet are not lost")
 		for j := range pk[i] {
 			verifapi.Assert(buf[j] == pk[i][j], "a packet has its original bytes")
